@@ -98,3 +98,23 @@ Require Import RV.model.Sem RV.proofs.SemScalarProofs.
 Theorem C01_back_sem_scalar : forall x f e s, (ScalarFrag.height x <= f)%nat ->
   Sem.eval f e s (ScalarFrag.embed x) = (lift (ScalarFrag.sev x), e, s).
 Proof. exact sem_scalar. Qed.
+
+(* ... and the VM model that is compared with the real VM on every run, running the code of [cexp] inside ANY code
+   object, at ANY position, under ANY stack with room for it, pushes exactly that value - or stops with exactly
+   that error class - and leaves the machine state untouched; k is the number of instructions executed.
+   Together (C01_back_compile_scalar, C01_back_sem_scalar, C01_back_vm_scalar): on the scalar fragment,
+   compiling and executing a program is the same as evaluating its source, for every expression of any size. *)
+Require Import RV.model.VM RV.proofs.VMScalarProofs.
+Theorem C01_back_vm_scalar :
+  forall tabs c below frames free defers is_main s e base pre post st,
+  code_instr c = (pre ++ fst (cexp base e) ++ post)%list ->
+  (forall i k, nth_error (snd (cexp base e)) i = Some k -> nth (base + i) (code_consts c) (KInt 0) = k) ->
+  (below + List.length st + need e <= MAXSTACK)%nat ->
+  exists k, forall f,
+    exec tabs (k + f) c (List.length pre) st below frames free defers is_main s =
+    match sev e with
+    | inl v => exec tabs f c (List.length pre + List.length (fst (cexp base e))) (VMScalarProofs.inj v :: st)%list
+                    below frames free defers is_main s
+    | inr x => (RErr (cls x) s, defers)
+    end.
+Proof. exact vm_scalar. Qed.
